@@ -17,7 +17,7 @@ for P in props:
                     shutil.copy(os.path.join(src, f), os.path.join(dst, f))
         if not os.path.exists(os.path.join(dst, "patch.diff")):
             continue
-        CHECK = {"C03-4": "C13", "C03-9": "C13", "C03-12": "C13", "C12-11": "C06", "C03-13": "C13"}  # a regression written against one property may live in another check's domain
+        CHECK = {"C03-4": "C13", "C03-9": "C13", "C03-12": "C13", "C12-11": "C06", "C03-13": "C13", "C01-23": "C13"}  # a regression written against one property may live in another check's domain
         chk = CHECK.get(os.path.basename(dst), P)
         r = subprocess.run(["python3", "/verif/tools/try_seed.py", dst, chk, "--suite"], capture_output=True, text=True)
         try:
